@@ -939,6 +939,34 @@ func runC11Shapes(c *CaseCtx, r *rand.Rand) (res CaseResult) {
 			}
 			callee = append(callee, rf)
 		}
+		// one more derived function plans through a converter that fails for
+		// its first input: that call fails INSIDE the derived function, before
+		// the run-once function has ever run, and leaves nothing behind
+		convFail := errors.New("converter refuses this input")
+		viaConv, err := f.Redefine(am.Converter(func(x T2) (T0, error) {
+			if x.ID < 0 {
+				return T0{}, convFail
+			}
+			return T0{ID: x.ID}, nil
+		}), am.FilterInput(am.FilterType(types[2])))
+		if err == nil {
+			if rr := viaConv.Call(am.Typed(T2{ID: -4})); rr.Err() != convFail {
+				res.violate("C04", "error-not-verbatim", fmt.Sprintf("a converter failed inside a function derived by Redefine; its call returned %v", rr.Err()), det)
+			}
+			if execs != 0 {
+				res.violate("C04", "continued-after-error", "the run-once function ran although the converter in front of it failed", det)
+			}
+			// later uses of that handle supply a good input (the T0 the loop
+			// below passes is ignored by it: it declares T2)
+			good := viaConv
+			callee = append(callee, am.MustFunc(am.NewFunc(func(a T0) (T1, error) {
+				rr := good.Call(am.Typed(T2{ID: a.ID}))
+				if rr.Err() != nil {
+					return T1{}, rr.Err()
+				}
+				return rr.Out(0).(T1), nil
+			})))
+		}
 		r.Shuffle(len(callee), func(i, j int) { callee[i], callee[j] = callee[j], callee[i] })
 		n := len(callee) + r.Intn(3)
 		for k := 0; k < n; k++ {
